@@ -496,3 +496,32 @@ fn probe_c() {
     }
     assert!(it.next().is_none());
 }
+
+/// element type for records: whatever the cell says about itself through `deserialize_any`
+impl<'de> Deserialize<'de> for Got {
+    fn deserialize<D: Deserializer<'de>>(d: D) -> Result<Self, D::Error> {
+        d.deserialize_any(Leaf)
+    }
+}
+#[kani::proof]
+#[kani::unwind(8)]
+#[kani::stub(alloc::fmt::format, format_stub)]
+fn probe_d() {
+    let v: [[i64; 2]; 3] = kani::any();
+    let start = any_origin();
+    let range = Range { start, end: (start.0 + 2, start.1 + 1), inner: ints3x2(&v) };
+    let b = no_headers();
+    let Ok(mut it) = b.from_range::<Data, Row3<Got>>(&range) else {
+        assert!(false);
+        return;
+    };
+    let mut n = 0;
+    while n < 3 {
+        match it.next() {
+            Some(Ok(r)) => assert!(r.n == 2 && r.e[0] == Some(Got::I64(v[n][0])) && r.e[1] == Some(Got::I64(v[n][1]))),
+            _ => assert!(false),
+        }
+        n += 1;
+    }
+    assert!(it.next().is_none());
+}
